@@ -179,7 +179,10 @@ class SLCDriver(CIPDriver):
         request.add(b"".join(message_request))
         response = self.send(request)
         self.__log.debug(f"SLC read_tag({tag})")
-        
+
+        if not response:
+            # the reply that should carry the PCCC answer was refused itself (encapsulation or CIP status) or is malformed
+            return Tag(_tag["tag"], None, _tag["file_type"], response.error)
 
         status = request_status(response.raw)
 
@@ -252,6 +255,10 @@ class SLCDriver(CIPDriver):
         request = SendUnitDataRequestPacket(self._sequence)
         request.add(b"".join(message_request))
         response = self.send(request)
+
+        if not response:
+            # the reply that should carry the PCCC answer was refused itself (encapsulation or CIP status) or is malformed
+            return Tag(_tag["tag"], None, _tag["file_type"], response.error)
 
         status = request_status(response.raw)
         if status is not None:
